@@ -58,25 +58,167 @@ theorem first_intLine3 (a b c : Int) (ha : IntFits 8 a) : pyInt? (slice (intLine
 
 /-! ### values -/
 
-/-- the value fits the announced field: not (negative with a three-digit exponent) -/
-def Fits (d b : Nat) : Prop := ¬ ((sci d b).neg = true ∧ 100 ≤ (sci d b).e10.natAbs)
+/-- length of `'%.{d}E' % x` for every `d` (also `d = 0`, where no point is printed) -/
+theorem sciChars_length' (d : Nat) (s : Sci) (he : s.e10.natAbs < 1000) :
+    (sciChars d s).length
+      = (if s.neg then 1 else 0) + (d + 1) + (if d = 0 then 0 else 1) + 2 + (if s.e10.natAbs < 100 then 2 else 3) := by
+  unfold sciChars
+  by_cases hd0 : d = 0
+  · subst hd0
+    simp only [if_true, List.length_append, List.length_cons, List.length_nil, List.length_take,
+      fixedDigits_length, expDigits_length _ he]
+    cases s.neg <;> simp
+  · simp only [hd0, if_false, List.length_append, List.length_cons, List.length_nil, List.length_take,
+      List.length_drop, fixedDigits_length, expDigits_length _ he]
+    cases s.neg <;> simp <;> omega
 
-theorem fmtE_length_fits (d b : Nat) (hd : 1 ≤ d) (h : Fits d b) : (fmtE d b).length = numlen d := by
+/-- `float()` of a `'%.0E'` field (one digit, no point) between blanks: exactly the printed decimal -/
+theorem pyFloat_sciChars0 (s : Sci) (a b : Str) (hm : s.mant < 10)
+    (he : s.e10.natAbs < 1000) (ha : ∀ x ∈ a, isWs x = true) (hb : ∀ x ∈ b, isWs x = true) :
+    pyFloat? (a ++ sciChars 0 s ++ b) = some (sciDec 0 s) := by
+  obtain ⟨c0, hds⟩ : ∃ c0, fixedDigits (0 + 1) s.mant = [c0] := by
+    have hl := fixedDigits_length (0 + 1) s.mant
+    cases hfd : fixedDigits (0 + 1) s.mant with
+    | nil => rw [hfd] at hl; simp at hl
+    | cons c0 rest =>
+      rw [hfd] at hl
+      cases rest with
+      | nil => exact ⟨c0, rfl⟩
+      | cons _ _ => simp at hl
+  have hdig : ∀ c ∈ [c0], c.isDigit = true := by
+    rw [← hds]; exact fixedDigits_isDigit _ _
+  have hc0 : c0.isDigit = true := hdig c0 List.mem_cons_self
+  have hval : digitsVal [c0] = s.mant := by
+    rw [← hds, digitsVal_fixedDigits, Nat.mod_eq_of_lt (by simpa using hm)]
+  have hexp := expDigits_isDigit _ he
+  have hexpv := digitsVal_expDigits _ he
+  have hexpa := allDigits_of _ (expDigits_ne_nil _ he) hexp
+  have hbody : ∀ x ∈ sciChars 0 s, isWs x = false := by
+    intro x hx
+    unfold sciChars at hx
+    simp only [if_true, hds, List.take_succ_cons, List.take_zero, List.append_nil,
+      List.mem_append, List.mem_cons, List.not_mem_nil, or_false] at hx
+    rcases hx with (((h | h) | h) | h)
+    · split at h
+      · simp only [List.mem_cons, List.not_mem_nil, or_false] at h; rw [h]; decide
+      · simp at h
+    · rw [h]; exact isDigit_not_ws _ hc0
+    · rcases h with h | h
+      · rw [h]; decide
+      · rw [h]; split <;> decide
+    · exact isDigit_not_ws _ (hexp x h)
+  unfold pyFloat?
+  rw [strip_body a _ b ha hb hbody]
+  have hsplit : splitSign (sciChars 0 s) =
+      (s.neg, c0 :: 'E' :: (if s.e10 < 0 then '-' else '+') :: expDigits s.e10.natAbs) := by
+    unfold sciChars
+    simp only [if_true, hds, List.take_succ_cons, List.take_zero, List.append_nil]
+    cases s.neg
+    · simp only [Bool.false_eq_true, if_false, List.nil_append, List.cons_append, List.append_assoc]
+      exact splitSign_digit _ _ hc0
+    · simp only [if_true, List.cons_append, List.nil_append, List.append_assoc]
+      rfl
+  rw [hsplit]
+  have h1 : (c0 :: 'E' :: (if s.e10 < 0 then '-' else '+') :: expDigits s.e10.natAbs).takeWhile Char.isDigit = [c0] := by
+    simp [List.takeWhile_cons, hc0, not_digit_E]
+  have h2 : (c0 :: 'E' :: (if s.e10 < 0 then '-' else '+') :: expDigits s.e10.natAbs).dropWhile Char.isDigit
+      = 'E' :: (if s.e10 < 0 then '-' else '+') :: expDigits s.e10.natAbs := by
+    simp [List.dropWhile_cons, hc0, not_digit_E]
+  simp only [h1, h2]
+  have h5 : splitSign ((if s.e10 < 0 then '-' else '+') :: expDigits s.e10.natAbs)
+      = (decide (s.e10 < 0), expDigits s.e10.natAbs) := by
+    by_cases hneg : s.e10 < 0 <;> simp [hneg, splitSign]
+  have hman : digitsVal ([c0] ++ []) = s.mant := by simpa using hval
+  split
+  · next t heq =>
+    exfalso
+    have := (List.cons.inj heq).1
+    exact absurd this (by decide)
+  · simp only [List.isEmpty_cons, Bool.false_and, Bool.false_eq_true, if_false, beq_self_eq_true, Bool.or_true, if_true,
+      h5, hexpa, hexpv, hman, List.length_nil]
+    unfold sciDec
+    by_cases hneg : s.e10 < 0
+    · simp [hneg, abs_of_neg hneg]
+    · simp [hneg]; omega
+
+/-- negative with a three-digit exponent: `'%{numlen}.{d}E' % x` is one character wider than the field -/
+def Wide (d b : Nat) : Bool := (sci d b).neg && decide (100 ≤ (sci d b).e10.natAbs)
+
+/-- the test `len(s) > numlen` of `numform` is the test "negative with a three-digit exponent" -/
+theorem fmtE0_too_long_iff (d b : Nat) (hd : 1 ≤ d) : (fmtE0 d b).length > numlen d ↔ Wide d b = true := by
   have he := sci_e10_bound d b
-  unfold fmtE
+  unfold fmtE0 Wide
   rw [length_padLeft, sciChars_length d _ hd he]
   unfold numlen numlenBase expdigits
-  unfold Fits at h
+  cases (sci d b).neg <;> by_cases h : (sci d b).e10.natAbs < 100 <;> simp [h] <;> omega
+
+theorem fmtE_eq (d b : Nat) (hd : 1 ≤ d) :
+    fmtE d b = if Wide d b then padLeft (numlen d) (sciChars (d - 1) (sci (d - 1) b)) else fmtE0 d b := by
+  unfold fmtE
+  by_cases h : Wide d b = true
+  · rw [if_pos ((fmtE0_too_long_iff d b hd).2 h), if_pos h]
+  · rw [if_neg (fun h' => h ((fmtE0_too_long_iff d b hd).1 h')), if_neg h]
+
+theorem fmtE0_length_narrow (d b : Nat) (hd : 1 ≤ d) (h : Wide d b = false) : (fmtE0 d b).length = numlen d := by
+  have he := sci_e10_bound d b
+  unfold fmtE0
+  rw [length_padLeft, sciChars_length d _ hd he]
+  unfold numlen numlenBase expdigits
+  unfold Wide at h
   cases hn : (sci d b).neg <;> by_cases h1 : (sci d b).e10.natAbs < 100 <;> simp [h1] <;> simp [hn] at h <;> omega
 
-/-- the exact decimal printed for the double `b` with `d` digits after the point -/
-def decOf (d b : Nat) : Dec10 := sciDec d (sci d b)
+/-- every value is printed in exactly the announced width (finding F3 repaired) -/
+theorem fmtE_length (d b : Nat) (hd : 1 ≤ d) : (fmtE d b).length = numlen d := by
+  rw [fmtE_eq d b hd]
+  split
+  · obtain ⟨k, rfl⟩ : ∃ k, d = k + 1 := ⟨d - 1, by omega⟩
+    simp only [Nat.add_sub_cancel]
+    have he := sci_e10_bound k b
+    rw [length_padLeft, sciChars_length' k _ he]
+    unfold numlen numlenBase expdigits
+    rcases Nat.eq_zero_or_pos k with rfl | hk
+    · cases (sci 0 b).neg <;> by_cases h : (sci 0 b).e10.natAbs < 100 <;> simp [h]
+    · have h0 : ¬ k = 0 := by omega
+      cases (sci k b).neg <;> by_cases h : (sci k b).e10.natAbs < 100 <;> simp [h, h0] <;> omega
+  · next hw => exact fmtE0_length_narrow d b hd (by simpa using hw)
 
-theorem pyFloat_fmtE (d b : Nat) (hd : 1 ≤ d) : pyFloat? (fmtE d b) = some (decOf d b) := by
-  unfold fmtE padLeft decOf
+/-- the value is printed in the announced width.  Since the repair of F3 this holds for every value (`fits_all`); the
+lemmas below keep it as a hypothesis because that is all they need. -/
+def Fits (d b : Nat) : Prop := (fmtE d b).length = numlen d
+
+theorem fits_all (d b : Nat) (hd : 1 ≤ d) : Fits d b := fmtE_length d b hd
+
+theorem fmtE_length_fits (d b : Nat) (_hd : 1 ≤ d) (h : Fits d b) : (fmtE d b).length = numlen d := h
+
+/-- the exact decimal `'%.{d}E' % x` prints for the double `b` -/
+def decOf0 (d b : Nat) : Dec10 := sciDec d (sci d b)
+
+/-- the exact decimal the writer prints for the double `b`: `d` digits after the point, `d - 1` for a `Wide` value -/
+def decOf (d b : Nat) : Dec10 := if Wide d b then decOf0 (d - 1) b else decOf0 d b
+
+theorem pyFloat_fmtE0 (d b : Nat) (hd : 1 ≤ d) : pyFloat? (fmtE0 d b) = some (decOf0 d b) := by
+  unfold fmtE0 padLeft decOf0
   have := pyFloat_sciChars d (sci d b) (List.replicate (numlen d - (sciChars d (sci d b)).length) ' ') [] hd
     (sci_mant d b).1 (sci_e10_bound d b) (replicate_ws _) (by simp)
   simpa using this
+
+theorem pyFloat_fmtE (d b : Nat) (hd : 1 ≤ d) : pyFloat? (fmtE d b) = some (decOf d b) := by
+  rw [fmtE_eq d b hd]
+  unfold decOf
+  split
+  · unfold padLeft decOf0
+    obtain ⟨k, rfl⟩ : ∃ k, d = k + 1 := ⟨d - 1, by omega⟩
+    simp only [Nat.add_sub_cancel]
+    rcases Nat.eq_zero_or_pos k with rfl | hk
+    · have := pyFloat_sciChars0 (sci 0 b)
+        (List.replicate (numlen (0 + 1) - (sciChars 0 (sci 0 b)).length) ' ') []
+        (by have := (sci_mant 0 b).1; simpa using this) (sci_e10_bound 0 b) (replicate_ws _) (by simp)
+      simpa using this
+    · have := pyFloat_sciChars k (sci k b)
+        (List.replicate (numlen (k + 1) - (sciChars k (sci k b)).length) ' ') [] hk
+        (sci_mant k b).1 (sci_e10_bound k b) (replicate_ws _) (by simp)
+      simpa using this
+  · exact pyFloat_fmtE0 d b hd
 
 /-- an element as read from its one or two fields -/
 def aEntry (d : Nat) (cplx : Bool) (x : Entry) : AEntry :=
